@@ -5,6 +5,8 @@ rows = []
 for f in sorted(glob.glob("/verif/seeded/*/meta.json")):
     m = json.load(open(f))
     checks = ", ".join(f"{c} {'DETECTS' if v['exit'] == 1 else 'silent' if v['exit'] == 0 else 'error'}" for c, v in m["checks"].items())
+    if m.get("superseded_by_fix"):
+        checks += f" (on the tree it was written for; led to fix {m['superseded_by_fix']}, see meta.json)"
     rows.append(f"| `{m['name']}` | {m['property']} | {m['needs_to_manifest']} | {'yes' if m['repo_tests_pass'] else 'NO'} | {checks} |")
 table = ("| seeded change | breaks | what it needs to manifest | repo tests still pass | checks run against it (quick tier) |\n|---|---|---|---|---|\n" + "\n".join(rows))
 p = "/verif/DESIGN.md"
